@@ -490,6 +490,8 @@ class CtlSim:
         gc_was = gc.isenabled()
         gc.disable()
         self.tmpdir = tempfile.mkdtemp(prefix="tpsim-")
+        from .hermetic import reset_library_state
+        reset_library_state()
         from asyncio_taskpool.control import client as cmod
         old_out, old_err = sys.stdout, sys.stderr
         cap_out, cap_err = io.StringIO(), io.StringIO()
